@@ -659,6 +659,12 @@ void QXmppOutgoingClient::handleStream(const QDomElement &streamElement)
         // no version specified, signals XMPP Version < 1.0.
         // switch to old auth mechanism if enabled
         if (d->streamVersion.isEmpty() && configuration().useNonSASLAuthentication()) {
+            // a pre-1.0 stream has no feature negotiation and thus no STARTTLS
+            if (configuration().streamSecurityMode() == QXmppConfiguration::TLSRequired && !socket()->isEncrypted()) {
+                warning(u"Server does not support TLS"_s);
+                disconnectFromHost();
+                return;
+            }
             startNonSaslAuth();
         }
     }
@@ -693,6 +699,13 @@ void QXmppOutgoingClient::handlePacketReceived(const QDomElement &nodeRecv)
 
 HandleElementResult QXmppOutgoingClient::handleElement(const QDomElement &nodeRecv)
 {
+    // TLS is required: on a link that is not encrypted (yet) only stream negotiation is accepted,
+    // no stanza is processed or answered
+    if (d->config.streamSecurityMode() == QXmppConfiguration::TLSRequired && !socket()->isEncrypted() &&
+        !QXmppStreamFeatures::isStreamFeatures(nodeRecv) && nodeRecv.namespaceURI() != ns_stream) {
+        return Rejected;
+    }
+
     // handle SM acks, stanza counter and IQ responses
     if (streamAckManager().handleStanza(nodeRecv) || iqManager().handleStanza(nodeRecv)) {
         return Accepted;
